@@ -48,6 +48,9 @@ func Reach(fn *ssa.Function, from ssa.Instruction, startEdges []Edge, target fun
 	if cut == nil {
 		cut = NewCut()
 	}
+	if len(NewFns) > 0 {
+		return reachIP(fn, from, startEdges, target, cut)
+	}
 	type pos struct {
 		b *ssa.BasicBlock
 		i int
@@ -632,11 +635,20 @@ func constInt(v ssa.Value) (int64, bool) {
 
 // callsIn lists call instructions (call, go, defer) of fn in block order.
 func callsIn(fn *ssa.Function) []ssa.CallInstruction {
+	return callsInD(fn, 0, map[*ssa.Function]bool{fn: true})
+}
+
+// callsInD: a call of a new helper (ip.go) is followed by the calls the helper makes.
+func callsInD(fn *ssa.Function, depth int, seen map[*ssa.Function]bool) []ssa.CallInstruction {
 	var out []ssa.CallInstruction
 	for _, b := range fn.Blocks {
 		for _, in := range b.Instrs {
 			if c, ok := in.(ssa.CallInstruction); ok {
 				out = append(out, c)
+				if h := helperCallee(in); h != nil && depth < ipMaxDepth && !seen[h] {
+					seen[h] = true
+					out = append(out, callsInD(h, depth+1, seen)...)
+				}
 			}
 		}
 	}
@@ -1060,7 +1072,7 @@ func ReachPS(fn *ssa.Function, startEdges []Edge, target func(ssa.Instruction) b
 		}
 	}
 	type state struct {
-		b    *ssa.BasicBlock
+		b     *ssa.BasicBlock
 		known uint32 // bit i: outcome of tracked[i] is fixed
 		val   uint32 // its outcome
 	}
